@@ -16,7 +16,15 @@ import (
 // Rng is splitmix64; every random choice of a harness derives from one state.
 type Rng struct{ s uint64 }
 
-func NewRng(seed uint64) *Rng { return &Rng{s: seed*0x9E3779B97F4A7C15 + 0x1234567} }
+// NewRng: the state is derived from the seed through the output function, so that consecutive
+// seeds give unrelated streams (a state of seed*gamma would make seed k+1 the stream of seed k
+// shifted by one draw).
+func NewRng(seed uint64) *Rng {
+	r := &Rng{s: seed ^ 0xD1B54A32D192ED03}
+	a := r.Next()
+	b := r.Next()
+	return &Rng{s: a ^ (b << 1) ^ (seed * 0xA0761D6478BD642F)}
+}
 
 func (r *Rng) Next() uint64 {
 	r.s += 0x9E3779B97F4A7C15
